@@ -54,10 +54,36 @@ pub fn generate(tier: &str, seed: u64) -> Vec<String> {
         out.push(format!("c17 op retrieve_chunks box={}+{}", nl(&vec![0; gs.len()]), nl(&gs)));
         out.push(format!("c17 op cached_subset cid=k0 r={}+{}", nl(&vec![0; cfg.shape.len()]), nl(&cfg.shape)));
         out.push(format!("c17 op sharded_subset r={}+{}", nl(&vec![0; cfg.shape.len()]), nl(&cfg.shape)));
+        // the sharded extension reads whole inner chunks: at a ragged edge the region it assembles reaches beyond the
+        // array shape (the buffer it publishes is larger than the array part) and must still be tiled
+        if let (true, Some(e)) = (cfg.sharded, cfg.eff_inner.clone()) {
+            let igs: Vec<u64> = cfg.shape.iter().zip(&e).map(|(&a, &c)| (a + c - 1) / c).collect();
+            out.push(format!("c17 op inner_chunks ibox={}+{} ishape={}", nl(&vec![0; igs.len()]), nl(&igs), nl(&e)));
+            out.push(format!("c17 op inner_chunk ic={} ishape={}", nl(&igs.iter().map(|&g| g.max(1) - 1).collect::<Vec<_>>()), nl(&e)));
+            for _ in 0..3 {
+                let mut s = vec![]; let mut n = vec![];
+                for &g in &igs { let st = rng.below(g.max(1)); s.push(st); n.push(rng.range(1, g.max(1) - st)); }
+                // biased to the far edge
+                if rng.chance(1, 2) { for d in 0..s.len() { n[d] = igs[d].max(1) - s[d]; } }
+                out.push(format!("c17 op inner_chunks ibox={}+{} ishape={}", nl(&s), nl(&n), nl(&e)));
+            }
+        }
         for _ in 0..(if thorough { 12 } else { 6 }) {
             let mut s = vec![]; let mut n = vec![];
             for &e in &cfg.shape { let st = rng.below(e); s.push(st); n.push(rng.range(1, e - st)); }
             let chunk: Vec<u64> = gs.iter().map(|&g| rng.below(g.max(1))).collect();
+            // the chain's partial decoder asked for two regions of one chunk (the sharding partial decoder publishes one
+            // buffer per region, nested ones one per stored inner chunk met)
+            if rng.chance(1, 4) {
+                let (_co, cshape) = cfg.chunk_origin_shape(&chunk);
+                let mut regs = vec![];
+                for _ in 0..2 {
+                    let mut s2 = vec![]; let mut n2 = vec![];
+                    for &e in &cshape { let st = rng.below(e); s2.push(st); n2.push(rng.range(1, e - st)); }
+                    regs.push(format!("{}+{}", nl(&s2), nl(&n2)));
+                }
+                out.push(format!("c17 op pd c={} rs={}", nl(&chunk), regs.join("|")));
+            }
             match rng.below(6) {
                 0 | 1 | 2 => out.push(format!("c17 op retrieve_array_subset r={}+{}", nl(&s), nl(&n))),
                 3 => out.push(format!("c17 op cached_subset cid=k0 r={}+{}", nl(&s), nl(&n))),
